@@ -8,7 +8,7 @@ logic that covers the problem must agree on feasibility and on the optimal value
 from sim import gen
 from sim.engine import keyed_rng
 from sim.spec import spec_kinds, iter_constraints
-from .base import Check, Verdict
+from .base import Check, Verdict, engine_nonoptimal
 
 VALIDITY_PROPS = frozenset({"C01", "C02", "C03", "C04", "C09"})
 SAFE_CONSTRAINTS = ["TaskStartAt", "TaskStartAfter", "TaskEndAt", "TaskEndBefore", "TaskPrecedence", "TasksStartSynced", "TasksEndSynced",
@@ -168,9 +168,12 @@ class C15(Check):
                 continue
             if c.get("uncovered_logic"):
                 continue
+            if out == "solution" and cfg.get("optimizer") == "optimize":
+                nonopt = engine_nonoptimal(ev)
+                if nonopt is not None:
+                    v.violate("C15", "engine_nonoptimal", sorted(set(name.split("+"))), nonopt, ev["seq"], cid)
+                    continue
             if out in ("solution", "false"):
-                if cfg.get("optimizer") == "optimize" and cfg.get("optimize_priority") == "pareto" and nobj > 1:
-                    pass
                 answers.append((cid, name, cfg, out, (ev.get("model") or {}).get("OBJ") if out == "solution" else None))
         # agreement among definite answers
         for i in range(len(answers)):
